@@ -298,9 +298,9 @@ def dist_safety_job(metric, xr, yr, outr):
     def path(ctx):
         K = KModule('libdist', abstract=True)
         it = K.it
-        X = AbstractBuf('X', [core.fresh_int('dX', 0, None) for _ in range(xr)], dtype)
-        y = AbstractBuf('y', [core.fresh_int('dy', 0, None) for _ in range(yr)], dtype)
-        out = None if outr is None else AbstractBuf('out', [core.fresh_int('do', 0, None) for _ in range(outr)], 'float64')
+        X = AbstractBuf('X', [core.fresh_int('dX', 0, 2 ** 40) for _ in range(xr)], dtype)     # extents bounded by the address space
+        y = AbstractBuf('y', [core.fresh_int('dy', 0, 2 ** 40) for _ in range(yr)], dtype)
+        out = None if outr is None else AbstractBuf('out', [core.fresh_int('do', 0, 2 ** 40) for _ in range(outr)], 'float64')
         exc = None
         try:
             getattr(K, metric)(X, y, out)
@@ -314,14 +314,41 @@ def dist_safety_job(metric, xr, yr, outr):
             # caused by a genuine mismatch of sizes (the path condition then contains one)
             return PathOut([('malformed-input-is-rejected-with-an-error(not executed)', ok)], {}, None, exc=name,
                            desc='rejected: %s' % name)
-        obs = ob_list(it, ('bounds', 'independence'))
+        obs = ob_list(it, ('bounds', 'independence', 'overflow'))
         obs.append(('wrong-rank-never-reaches-the-kernel', valid_ranks))
 
-        def witness(model):
+        def witness(model, label=None):
             sx = [int(ev(model, d)) for d in X.shape]
             sy = [int(ev(model, d)) for d in y.shape]
             so = None if out is None else [int(ev(model, d)) for d in out.shape]
             o = {'inputs': {'metric': metric, 'X.shape': sx, 'y.shape': sy, 'out.shape': so, 'dtype': dtype}}
+            if label is not None and 'overflow' in label:
+                # an integer accumulator can overflow for these extents: run the real kernel on rows that differ from
+                # the target everywhere and compare with the exact value
+                try:
+                    modr = build_ext('libdist')
+                except Exception as e:
+                    return dict(o, out=None, violated=None, exception='build failed: %r' % e)
+                bad = []
+                # the solver's extents are only a lower bound on what is needed; the widths at which the integer types
+                # of the library wrap are tried concretely (one row)
+                for width in (130, 260, 33000, 66000):
+                    for dt_ in ((INT_DTYPES + UINT_DTYPES) if metric == 'hamming' else INT_DTYPES):
+                        Xc = np.ones((1, width), dtype=dt_)
+                        yc = np.zeros(width, dtype=dt_)
+                        with core.concrete_mode():
+                            r = getattr(modr, metric)(Xc, yc)
+                        want = 1.0 if metric == 'hamming' else (float(width) if metric == 'manhattan' else math.sqrt(width))
+                        if abs(float(r[0]) - want) > 1e-9 * max(1.0, want):
+                            bad.append('%s[%s] with %d features returns %r instead of %r' % (metric, dt_, width, float(r[0]), want))
+                    if bad:
+                        break
+                o['inputs']['tried'] = 'one row of ones against a target of zeros, widths 130/260/33000/66000, every integer dtype'
+                o['out'] = bad
+                o['violated'] = bad[:1]
+                o['signature'] = '%s:integer-accumulator-overflows-for-wide-rows' % metric
+                o['skip_compare'] = True
+                return o
             if max(sx + sy + (so or [0])) > 64:
                 return dict(o, out=None, violated=None)
             try:
@@ -434,9 +461,9 @@ def bincount_safety_job(dtype, mismatched_len=False):
     def path(ctx):
         K = KModule('libinfo', abstract=True)
         it = K.it
-        T = core.fresh_int('T', 0, None)
-        T2 = core.fresh_int('T2', 0, None) if mismatched_len else T
-        fa, fb = core.fresh_int('fa', 0, None), core.fresh_int('fb', 0, None)
+        T = core.fresh_int('T', 0, 2 ** 31)
+        T2 = core.fresh_int('T2', 0, 2 ** 31) if mismatched_len else T
+        fa, fb = core.fresh_int('fa', 0, 2 ** 20), core.fresh_int('fb', 0, 2 ** 20)
         a = AbstractBuf('a', [T, fa], dtype)
         b = AbstractBuf('b', [T2, fb], dtype)
         na, nb = core.fresh_int('na', 0, 2 ** 31 - 1), core.fresh_int('nb', 0, 2 ** 31 - 1)
